@@ -73,10 +73,62 @@ class Wrapl(util.WrapperMixin):
         self.class_lines = []
         self.lua_type_structs = []
 
+        # Classes wrapped for Lua in this library, by typemap name.
+        self.lua_classes = {}
+        self.find_lua_classes(newlibrary.wrap_namespace)
+
         self.wrap_namespace(newlibrary.wrap_namespace)
         self.write_header(newlibrary)
         self.write_module(newlibrary)
     #        self.write_helper()
+
+    def find_lua_classes(self, node):
+        """Record the classes which get a Lua userdata type.
+
+        Args:
+            node - ast.LibraryNode, ast.NamespaceNode
+        """
+        for cls in node.classes:
+            if cls.wrap.lua:
+                self.lua_classes[cls.typemap.name] = cls
+        for ns in node.namespaces:
+            if ns.wrap.lua:
+                self.find_lua_classes(ns)
+
+    def class_arg_pop(self, arg_typemap, fmt_arg):
+        """Expression for the C++ object of a class instance argument:
+        the object pointer of a userdata of the argument's class
+        at the argument's index.
+
+        Args:
+            arg_typemap - typemap.Typemap of the class.
+            fmt_arg - util.Scope of the argument.
+        """
+        node = self.lua_classes.get(arg_typemap.name)
+        if node is not None:
+            for name in [
+                "LUA_userdata_type", "LUA_userdata_member", "LUA_metadata"
+            ]:
+                node.eval_template(name)
+                setattr(fmt_arg, name, getattr(node.fmtdict, name))
+            return wformat(
+                "(({LUA_userdata_type} *)\t luaL_checkudata"
+                '(\t{LUA_state_var}, {LUA_index}, "{LUA_metadata}"))'
+                "->{LUA_userdata_member}",
+                fmt_arg,
+            )
+        # A class wrapped by another library.  Its userdata type is not
+        # declared here; every userdata written by Shroud starts with
+        # the object pointer and its metatable has the default name.
+        fmt_arg.cxx_class = arg_typemap.name.split("::")[-1]
+        fmt_arg.LUA_metadata = wformat(
+            self.newlibrary.options.LUA_metadata_template, fmt_arg
+        )
+        return wformat(
+            "*({cxx_type} **)\t luaL_checkudata"
+            '(\t{LUA_state_var}, {LUA_index}, "{LUA_metadata}")',
+            fmt_arg,
+        )
 
     def wrap_namespace(self, node):
         """Wrap a library or namespace.
@@ -574,7 +626,11 @@ luaL_setfuncs({LUA_state_var}, {LUA_class_reg}, 0);
                 # XXX lua_pop = wformat(arg_typemap.LUA_pop, fmt_arg)
                 # lua_pop is a C++ expression
                 fmt_arg.pop_expr = wformat(arg_typemap.LUA_pop, fmt_arg)
-                if self.language == "c":
+                if arg_typemap.base == "shadow":
+                    # LUA_pop and c_to_cxx describe the object at index 1
+                    # and the capsule of the C wrapper.
+                    fmt_arg.pop_expr = self.class_arg_pop(arg_typemap, fmt_arg)
+                elif self.language == "c":
                     pass
                 elif arg_typemap.c_to_cxx:
                     fmt_arg.c_var = fmt_arg.pop_expr
